@@ -3,7 +3,7 @@ pymoca.backends.casadi.api (open / os / ca) and on distutils' linker call, a con
 one thread at a time run from one file-system operation to the next, and crash injection.
 
 Gate names are the pc values of spec/ModelCacheConc.tla:
-    r_stat  r_open  r_read(k)  r_libs(i)  w_link_a(i)  w_link_b(i)  w_open  w_write(k)  w_close
+    r_stat  r_open  r_read(k)  r_libs(i)  w_link_a(i)  w_link_b(i)  w_open  w_write(k)  w_close  w_cleanup
 A thread blocked at gate g has NOT yet performed g.  Nothing here knows expected results.
 """
 import os
@@ -310,6 +310,13 @@ class OsProxy:
         if ag is not None and _is_final_cache(dst):
             ag.gate("w_close")
         return self._real.replace(src, dst, **kw)
+
+    def remove(self, path, **kw):
+        # removal of a shared library of an earlier save (cleanup after the cache file was replaced)
+        ag = current()
+        if ag is not None and str(path).endswith((".so", ".dll", ".dylib")) and ag.count("cleanup") == 1:
+            ag.gate("w_cleanup")
+        return self._real.remove(path, **kw)
 
     def rename(self, src, dst, **kw):
         ag = current()
